@@ -211,9 +211,12 @@ def permsValid (ps : List Perm) : Bool := !ps.isEmpty && ps.all knownPerm && nod
 /-- the type id of service "Accessory Information" -/
 def accessoryInformation : Nat := 0x3E
 
+/-- the one constructor without a format of its own: `NewCharacteristic(typ)`, the untyped base of the typed wrappers
+    (its caller assigns `Format`) -/
+def CharRow.untyped (c : CharRow) : Bool := c.ctor == "NewCharacteristic"
+
 def CharRow.usable (c : CharRow) : Bool :=
-  !c.panicked && c.typ.isSome &&
-    (c.nargs != 0 || (c.format != .unknown && c.unit != .unknown && permsValid c.perms))
+  !c.panicked && c.typ.isSome && c.unit != .unknown && permsValid c.perms && (c.format != .unknown || c.untyped)
 
 def SvcRow.usable (s : SvcRow) : Bool := !s.panicked && s.typ.isSome && s.chars.all (·.isSome)
 
